@@ -284,7 +284,7 @@ func (p *Proc) newShell(env *wire.Env) *readline.Shell {
 	}
 	sh := readline.NewShell(opts...)
 	prompt := env.Prompt
-	sh.Prompt.Primary(func() string { return prompt })
+	sh.Prompt.Primary(func() string { promptPoint(); return prompt })
 	if env.RPrompt != "" {
 		rp := env.RPrompt
 		sh.Prompt.Right(func() string { return rp })
